@@ -1206,6 +1206,32 @@ def cleanup_closure_rules(ctx, crate, outer, cb, info, roles, conv, label):
             got.append((lo, hi, i[1], i[2]))
             if not i[2]:
                 ctx.add(['C09'], 'O6', fmt_span(i[3]['span']), 'cleanup brings an element back as %s but never drops it' % i[1], key='cleanup-nodrop-%s' % i[1])
+    # every path through the cleanup closure runs both sweeps to exhaustion: each return is
+    # dominated by both range constructions, and a sweep loop is left only when its iterator is empty
+    rets = [i for i, blk in enumerate(cb.blocks) if blk['term']['k'] == 'return' and not blk['cleanup']]
+    for (bb, lo, hi, t) in ranges:
+        for r in rets:
+            if bb not in dom.get(r, set()):
+                ctx.add(['C09'], 'O6', fmt_span(t['span']), 'the cleanup closure can return (bb%d) without having swept [%s,%s): elements of that region are not dropped on some path' % (r, lo, hi), key='cleanup-skipped-%s' % lo)
+    succ = {i: cb.successors(i, unwind=False) for i in range(len(cb.blocks))}
+    for bb, t in cb.calls():
+        if (callee_path(t) or '').endswith('Iterator>::next') and 'slice::iter::Iter' in (callee_path(t) or ''):
+            head = bb
+            # loop body = blocks that can reach the head again
+            body = set()
+            for x in cb.reachable(head, unwind=False):
+                if head in cb.reachable(x, unwind=False) and x != head or x == head:
+                    if head in [y for y in cb.reachable(x, unwind=False)]:
+                        body.add(x)
+            nxt = t['t']
+            for x in sorted(body):
+                for s_ in succ[x]:
+                    if s_ not in body and not cb.blocks[s_]['term']['k'] == 'unreachable':
+                        # the only legal exit: the `None` edge of the switch on next()'s result
+                        blk = cb.blocks[x]
+                        ok = x == nxt and blk['term']['k'] == 'switch' and dict(blk['term']['targets']).get(0) == s_
+                        if not ok:
+                            ctx.add(['C09'], 'O6', cb.span(), 'a cleanup sweep can be left early (bb%d -> bb%d) before its iterator is exhausted' % (x, s_), key='cleanup-early-exit')
     want = {('0', 'p', 'U', True), ('q', 'n', 'T', True)}
     if set(got) != want:
         ctx.add(['C09'], 'O6', cb.span(), 'cleanup drops %s; the region invariant requires exactly [0,produced) as U and [consumed,len) as T' % sorted('[%s,%s) as %s' % g[:3] for g in got), key='cleanup-ranges')
